@@ -216,7 +216,7 @@ where
     type Stream = Self;
 
     fn into_parts(self) -> (Vector<VectorDiffContainerStreamElement<S>>, Self::Stream) {
-        (self.buffered_vector.clone(), self)
+        (self.buffered_vector.clone().truncate_from_end(self.limit), self)
     }
 }
 
